@@ -10,9 +10,6 @@ mesh of the same model is the single item returned for Nproc = 1.
 
 from __future__ import annotations
 
-import functools
-import json
-
 import numpy as np
 
 from EasyFEA import ElemType, Mesh, Mesher
@@ -35,9 +32,17 @@ def _finalize_gmsh():
         gmsh.finalize()
 
 
-def build_parts(recipe: dict, Nproc: int, coef: float = 1.0) -> list:
-    """the Nproc meshes of the partition of the recipe's gmsh model (Nproc=1: [global mesh]).
-    gmsh refusing the geometry is Inconclusive; whatever happens in `_Mesh_Get_Meshes` (the code
+def build(recipe: dict, Nproc, coef: float = 1.0):
+    """(global mesh, [part meshes], Nproc) of ONE generated gmsh mesh (Nproc: int, None = no partition, or a
+    function of the number of main-dimension elements).
+
+    The model is built with the staged calls Mesher.Mesh_2D / Mesh_Extrude use (as in
+    /repo/tests/FEM/partition_test.py).  The global mesh is read from the generated model with the same
+    routine `_Mesh_Get_Mesh` uses in serial (`__Get_dict_groupElems(1, coef)`, which only reads the
+    model), then `_Mesh_Get_Meshes(Nproc, coef)` partitions that very mesh.  Reading both from one
+    generation matters: gmsh's recombination is not reproducible on a few tiny unstructured QUAD/HEXA
+    recipes, so a re-generated mesh is not a valid reference.
+    gmsh refusing the geometry is Inconclusive; whatever happens while reading/partitioning (the code
     under test) propagates."""
     r = base_recipe(recipe)
     et = ElemType(r["elemType"])
@@ -58,18 +63,24 @@ def build_parts(recipe: dict, Nproc: int, coef: float = 1.0) -> list:
             mesher._Mesh_Generate(dim, et)
         except Exception as e:  # gmsh refused the recipe (geometry / meshing stage)
             raise Inconclusive(f"gmsh: {type(e).__name__}")
-        return mesher._Mesh_Get_Meshes(int(Nproc), coef)
+        gl = Mesh(mesher._Mesher__Get_dict_groupElems(1, coef)[0])
+        if Nproc is None:
+            return gl, None, None
+        if callable(Nproc):  # part count as a function of the number of main-dimension elements
+            Nproc = Nproc(gl.Ne)
+        parts = mesher._Mesh_Get_Meshes(int(Nproc), coef)
+        return gl, parts, int(Nproc)
     finally:
         _finalize_gmsh()
 
 
-@functools.lru_cache(maxsize=64)
-def _global(key: str, coef: float) -> Mesh:
-    return build_parts(json.loads(key), 1, coef)[0]
-
-
-def global_mesh(recipe: dict, coef: float = 1.0) -> Mesh:
-    return _global(json.dumps(base_recipe(recipe), sort_keys=True), float(coef)).copy()
+def same_mesh(a: Mesh, b: Mesh) -> bool:
+    ga, gb = groups(a), groups(b)
+    if sorted(ga) != sorted(gb) or a.Nn != b.Nn:
+        return False
+    if not np.array_equal(np.asarray(a.coord), np.asarray(b.coord)):
+        return False
+    return all(np.array_equal(np.asarray(ga[t].connect), np.asarray(gb[t].connect)) for t in ga)
 
 
 # ------------------------------------------------------------------------------------------
